@@ -4,6 +4,7 @@ package main
 
 import (
 	"bufio"
+	"context"
 	"encoding/json"
 	"flag"
 	"fmt"
@@ -11,6 +12,7 @@ import (
 	"os/exec"
 	"path/filepath"
 	"strings"
+	"time"
 )
 
 var profiles = map[string]Profile{
@@ -22,6 +24,7 @@ var profiles = map[string]Profile{
 	"access": {Name: "access", Clients: 2, Resources: 3, Stimuli: 22, Unsub: true, Reaccess: true, Tokens: true, Calls: true, Faults: true, Denials: true, Clean: true},
 	"reset": {Name: "reset", Clients: 2, Resources: 4, Stimuli: 22, Refs: true, Collections: true, Unsub: true, Resets: true, Clean: true},
 	"malformed": {Name: "malformed", Clients: 2, Resources: 4, Stimuli: 26, Refs: true, Collections: true, Unsub: true, Calls: true, Malformed: true, Clean: true, Endgame: true},
+	"stop":  {Name: "stop", Clients: 3, Resources: 4, Stimuli: 20, Refs: true, Collections: true, Unsub: true, Calls: true, Disconnect: true, Evict: true, StopAt: true},
 	"gets":  {Name: "gets", Clients: 2, Resources: 4, Stimuli: 18, Refs: true, Collections: true, Unsub: true, Gets: true, Faults: true, Clean: true},
 }
 
@@ -89,8 +92,13 @@ func main() {
 	for j := 0; j < *jobs; j++ {
 		go func() {
 			for s := range seeds {
-				cmd := exec.Command(os.Args[0], "-child", fmt.Sprint(s), "-profile", *prof, "-out", *out)
+				cctx, cancel := context.WithTimeout(context.Background(), 90*time.Second)
+				cmd := exec.CommandContext(cctx, os.Args[0], "-child", fmt.Sprint(s), "-profile", *prof, "-out", *out)
 				outb, err := cmd.CombinedOutput()
+				if cctx.Err() != nil {
+					outb = append([]byte("panic: history did not finish within 90 s (hang)\n"), outb...)
+				}
+				cancel()
 				r := res{}
 				if err != nil {
 					r.crashed = true
